@@ -67,6 +67,8 @@ type Report struct {
 	Truncated   bool // MaxPaths or deadline hit with work left
 	Notes       map[string]int
 	MaxDecPath  int
+	IfConv      int
+	Forks       map[string]int
 	DistinctOK  int
 }
 
@@ -191,6 +193,13 @@ func (p *Program) Explore(job Job) *Report {
 			}
 			rep.Steps += out.Steps
 			rep.Unknowns += out.Unknowns
+			rep.IfConv += out.IfConv
+			for k, v := range out.Forks {
+				if rep.Forks == nil {
+					rep.Forks = map[string]int{}
+				}
+				rep.Forks[k] += v
+			}
 			for k, v := range out.Funcs {
 				rep.Funcs[k] += v
 			}
@@ -263,7 +272,7 @@ func (p *Program) Explore(job Job) *Report {
 // runPath executes the harness once along the given trail.
 func (p *Program) runPath(job Job, solver *smt.Solver, trail []Decision, wantModel bool) (*Outcome, [][]Decision, []Decision) {
 	solver.Reset()
-	out := &Outcome{Reached: map[string]bool{}, Funcs: map[string]int{}, Stubs: map[string]int{}}
+	out := &Outcome{Reached: map[string]bool{}, Funcs: map[string]int{}, Stubs: map[string]int{}, Forks: map[string]int{}}
 	m := &Machine{
 		prog: p, cfg: job.Cfg, ctx: smt.NewCtx(), solver: solver,
 		trail: append([]Decision(nil), trail...), globals: map[*ssa.Global]*value{}, out: out,
